@@ -27,7 +27,10 @@ func C08(c *vk.Ctx) {
 			return
 		}
 		for _, a := range alphabet {
-			if quick && (a.sym == "P0" || a.sym == "Pw" || a.sym == "Pe" || a.sym == "F0" || a.sym == "Xd") {
+			if a.sym == "Xd" {
+				continue // a 2.5 KB packet: cutting it at every offset in every script multiplies the space by seven; its delivery is C03's
+			}
+			if quick && (a.sym == "P0" || a.sym == "Pw" || a.sym == "Pe" || a.sym == "F0") {
 				continue // payload variants of packets already in the alphabet: thorough tier (C03 has them in both)
 			}
 			rec(append(pre, a))
